@@ -171,6 +171,249 @@ theorem C21_checkShard (shardMax repoMax : Nat) (cancelAt : Option Nat) (docs : 
   rw [isSublist_iff]
   exact searchShard_sublist shardMax repoMax cancelAt docs docs rfl hsound
 
+/-- **with the shard limit and cancellation only (no per-repository limit) the result is even a prefix** of the
+    unlimited result: these two only ever stop the search -/
+theorem shard_limit_and_cancel_give_prefix (o : Opts) (hr : o.repoMax = 0) (docs : List Doc) :
+    ∀ (st : St) (p : Bool), Sound docs → (run o st p docs).files <+: docs.filterMap elig := by
+  induction docs with
+  | nil => intro st p _; simp [run]
+  | cons d r ih =>
+    intro st p hs
+    have hs' : Sound r := fun x hx => hs x (List.mem_cons_of_mem _ hx)
+    unfold run
+    split
+    · rename_i h
+      have hd : elig d = none := hs d (List.mem_cons_self) (by have := h; simp at this; exact this.2)
+      rw [List.filterMap_cons, hd]
+      exact ih _ _ hs'
+    · split
+      · rename_i hsk
+        have hd : elig d = none := by simp [elig, hsk]
+        rw [List.filterMap_cons, hd]
+        exact ih _ _ hs'
+      · split
+        · rename_i h
+          simp [hr] at h
+        · rename_i hskip _
+          simp only [Bool.not_eq_true] at hskip
+          split
+          · exact List.nil_prefix
+          · split
+            · rename_i hf
+              have hd : elig d = none := by simp [elig, hskip, hf]
+              rw [List.filterMap_cons, hd]
+              exact ih _ _ hs'
+            · rename_i f hf
+              have hd : elig d = some f := by simp [elig, hskip, hf]
+              rw [List.filterMap_cons, hd]
+              exact List.cons_prefix_cons.mpr ⟨rfl, ih _ _ hs'⟩
+
+/-! ### promptness (as far as a model can state it): a cancelled search evaluates no further document -/
+
+theorem trackRepo_canceled (st : St) (d : Doc) : (trackRepo st d).canceled = st.canceled := by
+  unfold trackRepo; split <;> rfl
+
+theorem trackRepo_polls (st : St) (d : Doc) : (trackRepo st d).polls = st.polls := by
+  unfold trackRepo; split <;> rfl
+
+theorem files_le_considered (o : Opts) (docs : List Doc) : ∀ (st : St) (p : Bool),
+    (run o st p docs).files.length ≤ (run o st p docs).considered := by
+  induction docs with
+  | nil => intro st p; simp [run]
+  | cons d r ih =>
+    intro st p
+    unfold run
+    split
+    · exact ih _ _
+    · split
+      · exact ih _ _
+      · split
+        · exact ih _ _
+        · split
+          · simp
+          · split
+            · have := ih (poll o (trackRepo st d)) true
+              simp only; omega
+            · rename_i f _
+              have := ih (poll o (addMatch (trackRepo st d) f)) true
+              simp only [List.length_cons]; omega
+
+/-- once the context is seen cancelled no further document is evaluated; before that, at most one document per live
+    poll -/
+theorem run_prompt (o : Opts) (k : Nat) (hk : o.cancelAt = some k) (docs : List Doc) : ∀ (st : St) (p : Bool),
+    (st.canceled = false → st.polls ≤ k) →
+    (run o st p docs).considered ≤ (if st.canceled then 0 else k + 1 - st.polls) := by
+  induction docs with
+  | nil => intro st p _; simp [run]
+  | cons d r ih =>
+    intro st p hinv
+    unfold run
+    split
+    · exact ih _ _ hinv
+    · split
+      · exact ih _ _ hinv
+      · split
+        · exact ih _ _ hinv
+        · split
+          · simp
+          · rename_i hstop
+            have hc : st.canceled = false := by
+              cases h : st.canceled with
+              | false => rfl
+              | true => simp [mustStop, trackRepo_canceled, h] at hstop
+            have hp := hinv hc
+            simp only [hc]
+            -- the state after this document, before the next poll
+            have key : ∀ st' : St, st'.polls = st.polls →
+                (run o (poll o st') true r).considered + 1 ≤ k + 1 - st.polls := by
+              intro st' hp'
+              have hpoll : (poll o st').polls = st.polls + 1 := by simp [poll, hp']
+              have hcan : (poll o st').canceled = decide (k ≤ st.polls) := by simp [poll, hk, hp']
+              have := ih (poll o st') true (by
+                intro hcf
+                rw [hcan] at hcf
+                simp only [decide_eq_false_iff_not] at hcf
+                rw [hpoll]; omega)
+              rw [hcan, hpoll] at this
+              by_cases hle : k ≤ st.polls
+              · simp only [hle, decide_true, if_true] at this
+                omega
+              · simp only [hle, decide_false] at this
+                simp only [Bool.false_eq_true, if_false] at this
+                omega
+            split
+            · exact key (trackRepo st d) (trackRepo_polls st d)
+            · rename_i f _
+              exact key (addMatch (trackRepo st d) f) (by simp [addMatch, trackRepo_polls])
+
+/-- **C21, promptness in the model**: a search whose context turns cancelled after `k` polls of `Done()` evaluates at
+    most `k - 1` documents and returns at most `k - 1` files (`checkPrompt`) -/
+theorem C21_checkPrompt (shardMax repoMax : Nat) (k : Nat) (docs : List Doc) :
+    checkPrompt (some k) (searchShard shardMax repoMax (some k) docs).1.files
+      (searchShard shardMax repoMax (some k) docs).1.considered = true := by
+  have hgoal : (searchShard shardMax repoMax (some k) docs).1.considered ≤ k - 1 := by
+    unfold searchShard
+    simp only
+    split
+    · simp
+    · split
+      · simp
+      · rename_i hc0
+        have hk1 : 1 ≤ k := by
+          simp only [poll, Bool.not_eq_true, decide_eq_false_iff_not] at hc0
+          omega
+        have := run_prompt ⟨setDefaults shardMax, repoMax, some k⟩ k rfl docs
+          (poll ⟨setDefaults shardMax, repoMax, some k⟩ (poll ⟨setDefaults shardMax, repoMax, some k⟩ {})) true
+          (by intro hcf; simp [poll] at hcf ⊢; omega)
+        refine Nat.le_trans this ?_
+        simp only [poll]
+        by_cases h : k ≤ 1
+        · simp [h]
+        · simp [h]
+  have hfiles : (searchShard shardMax repoMax (some k) docs).1.files.length ≤
+      (searchShard shardMax repoMax (some k) docs).1.considered := by
+    unfold searchShard
+    simp only
+    split
+    · simp
+    · split
+      · simp
+      · exact files_le_considered _ _ _ _
+  simp only [checkPrompt, Bool.and_eq_true, decide_eq_true_eq]
+  exact ⟨hgoal, by omega⟩
+
+/-! ### the total limit (`streamSearch`) -/
+
+/-- invariant of the `search:` loop -/
+def SSInv (nShards totalMax : Nat) (counts : Nat → Nat) (s : SS) : Prop :=
+  (s.sent ++ s.inflight).Perm (List.range s.next) ∧
+  s.next ≤ nShards ∧
+  s.total = (s.sent.map counts).sum ∧
+  (s.stopped = true → s.next = nShards ∨ (totalMax > 0 ∧ s.total > totalMax))
+
+theorem ssStep_inv (nShards totalMax : Nat) (counts : Nat → Nat) (s s' : SS) (e : Ev)
+    (h : SSInv nShards totalMax counts s) (hs : ssStep nShards totalMax counts s e = some s') :
+    SSInv nShards totalMax counts s' := by
+  obtain ⟨h1, h2, h3, h4⟩ := h
+  cases e with
+  | dispatch =>
+    simp only [ssStep] at hs
+    split at hs
+    · simp at hs
+    · rename_i hg
+      simp only [Bool.or_eq_true, decide_eq_true_eq, not_or, Bool.not_eq_true, Nat.not_le] at hg
+      simp only [Option.some.injEq] at hs
+      have hperm : (s.sent ++ (s.inflight ++ [s.next])).Perm (List.range (s.next + 1)) := by
+        rw [List.range_succ, ← List.append_assoc]
+        exact List.Perm.append_right _ h1
+      split at hs
+      · rename_i hn
+        subst hs
+        exact ⟨hperm, by simp only; omega, h3, fun _ => Or.inl hn⟩
+      · subst hs
+        refine ⟨hperm, by simp only; omega, h3, ?_⟩
+        intro hst
+        simp only at hst
+        rw [hg.1] at hst
+        exact absurd hst (by simp)
+  | recv i =>
+    simp only [ssStep] at hs
+    split at hs
+    · simp at hs
+    · rename_i hc
+      simp only [Bool.not_eq_true, Bool.not_eq_false] at hc
+      have hmem : i ∈ s.inflight := by simpa using hc
+      simp only [Option.some.injEq] at hs
+      subst hs
+      refine ⟨?_, h2, ?_, ?_⟩
+      · simp only
+        have p1 : (s.sent ++ [i] ++ s.inflight.erase i).Perm (s.sent ++ (i :: s.inflight.erase i)) := by
+          rw [List.append_assoc]; exact List.Perm.refl _
+        have p2 : (s.sent ++ (i :: s.inflight.erase i)).Perm (s.sent ++ s.inflight) :=
+          List.Perm.append_left _ (List.perm_cons_erase hmem).symm
+        exact (p1.trans p2).trans h1
+      · simp only [List.map_append, List.sum_append, List.map_cons, List.map_nil, List.sum_cons, List.sum_nil]
+        omega
+      · intro hst
+        simp only [Bool.or_eq_true, Bool.and_eq_true, decide_eq_true_eq] at hst
+        rcases hst with hst | hst
+        · rcases h4 hst with h | h
+          · exact Or.inl h
+          · exact Or.inr ⟨h.1, by simp only; omega⟩
+        · exact Or.inr hst
+
+theorem ssRun_inv (nShards totalMax : Nat) (counts : Nat → Nat) (es : List Ev) : ∀ (s s' : SS),
+    SSInv nShards totalMax counts s → ssRun nShards totalMax counts s es = some s' →
+    SSInv nShards totalMax counts s' := by
+  induction es with
+  | nil => intro s s' h hs; simp only [ssRun, Option.some.injEq] at hs; subst hs; exact h
+  | cons e es ih =>
+    intro s s' h hs
+    simp only [ssRun] at hs
+    cases hstep : ssStep nShards totalMax counts s e with
+    | none => rw [hstep] at hs; simp at hs
+    | some s1 =>
+      rw [hstep] at hs
+      simp only [Option.bind_some] at hs
+      exact ih s1 s' (ssStep_inv _ _ _ _ _ _ h hstep) hs
+
+/-- **C21, total limit (`total_limit_whole_shards`)**: for every interleaving of handing out shards and receiving their
+    results, when the search loop ends the results that were sent on are those of the shards `[0, k)` — each exactly
+    once, nothing from any other shard, hence only whole shard results are ever missing — and `k` is smaller than the
+    number of shards only if the match counts of what was sent really exceed `TotalMaxMatchCount`. -/
+theorem total_limit_whole_shards (nShards totalMax : Nat) (counts : Nat → Nat) (es : List Ev) (s : SS)
+    (hrun : ssRun nShards totalMax counts {} es = some s) (hfin : ssFinished s = true) :
+    s.sent.Perm (List.range s.next) ∧ s.next ≤ nShards ∧
+    (s.next = nShards ∨ (totalMax > 0 ∧ (s.sent.map counts).sum > totalMax)) := by
+  have h0 : SSInv nShards totalMax counts {} := ⟨by simp, by simp, by simp, by simp⟩
+  obtain ⟨h1, h2, h3, h4⟩ := ssRun_inv _ _ _ es {} s h0 hrun
+  simp only [ssFinished, Bool.and_eq_true, List.isEmpty_iff] at hfin
+  rw [hfin.2, List.append_nil] at h1
+  refine ⟨h1, h2, ?_⟩
+  rcases h4 hfin.1 with h | h
+  · exact Or.inl h
+  · exact Or.inr ⟨h.1, by rw [← h3]; exact h.2⟩
+
 /-! ### non-vacuity -/
 
 def exDocs : List Doc :=
@@ -186,5 +429,12 @@ example : (searchShard 3 0 none exDocs).1.files.map (·.id) = [0, 2] := by decid
 -- cancelled from the 3rd poll on: one document evaluated
 example : (searchShard 0 0 (some 2) exDocs).1.files.map (·.id) = [0] := by decide
 example : (searchShard 0 0 (some 0) exDocs) = ({}, true) := by decide
+
+-- total limit 3 over shards with 2, 2, 5, 1 matches: shard 2 was already handed out when the limit was exceeded
+example : (ssRun 4 3 (fun i => [2, 2, 5, 1].getD i 0) {} [.dispatch, .dispatch, .recv 0, .dispatch, .recv 1, .recv 2]).map
+    (fun s => (s.sent, s.next, s.stopped, ssFinished s)) = some ([0, 1, 2], 3, true, true) := by decide
+-- a stopped search hands out nothing more
+example : ssRun 4 3 (fun i => [2, 2, 5, 1].getD i 0) {} [.dispatch, .recv 0, .dispatch, .recv 1, .dispatch] = none := by
+  decide
 
 end ZoektModel.C21
